@@ -390,16 +390,28 @@ func c07(c *Ctx) {
 			ip := make(net.IP, 16)
 			copy(ip[12:], b4[:])
 			return ip, false, b4 // IPv4-compatible (not mapped) form
+		case 9:
+			// round 10: a genuine IPv6 address that merely looks IPv4-mapped in its bytes 10..15 (seeded C07-W)
+			ip := make(net.IP, 16)
+			copy(ip[12:], b4[:])
+			ip[10], ip[11] = 0xff, 0xff
+			ip[int(b4[0])%10] = 1 + b4[1]%255
+			return ip, false, b4
+		case 10:
+			// any 16 bytes that are not the IPv4-mapped form
+			w := r.IP()
+			ip := net.IP{w.B[0], w.B[1], w.B[2], w.B[3], b4[3], b4[2], b4[1], b4[0], w.B[3], w.B[0] | 1, b4[0], b4[1], b4[0], b4[1], b4[2], b4[3]}
+			return ip, ip.To4() != nil, b4
 		}
 		return net.IP{b4[0], b4[1], b4[2], b4[3]}, true, b4
 	}
 	for i := 0; i < c.N(5000, 60000); i++ {
 		cls := [3]int{r.Pick(2), r.Pick(2), r.Pick(2)}
 		if r.Chance(0.6) {
-			cls[r.Pick(3)] = r.Pick(9)
+			cls[r.Pick(3)] = r.Pick(11)
 		}
 		if r.Chance(0.1) {
-			cls = [3]int{r.Pick(9), r.Pick(9), r.Pick(9)}
+			cls = [3]int{r.Pick(11), r.Pick(11), r.Pick(11)}
 		}
 		var ips [3]net.IP
 		var oks [3]bool
